@@ -1,6 +1,6 @@
 (* C05 correspondence: how one observed implementation result is compared with the model.
    Used by the generated run/C05/cases_*.v files.  Not part of any theorem. *)
-From Hy Require Import lib.Harness model.C05_Frag.
+From Hy Require Import lib.Harness model.C05_Frag model.C05_Send.
 From Coq Require Import ZArith.
 Local Open Scope N_scope.
 
@@ -17,7 +17,15 @@ Definition sum (m : msg) : list N :=
 
 Inductive pres := PRok (s : list N) | PReof | PRinvalid | PRpanic | PRnone.
 
+(* ---- send path (model/C05_Send.v): one step of a history and what the harness observed for it ---- *)
+Record sspec := mkSS { ss_al : N; ss_aa : N; ss_ab : N; ss_dl : N; ss_da : N; ss_db : N;
+                       ss_resp : list ioresp;   (* the connection's answer per SendMessage call, last one repeats *)
+                       ss_np : N }.             (* the random packet id the implementation drew (oracle) *)
+(* calls: per SendMessage call  sum(message) ++ [Serialize result; outcome 0 accept 1 drop 2 too-large 3 error; limit] *)
+Record sobs := mkSO { so_calls : list (list Z); so_ret : Z; so_retL : Z; so_emits : list (list N) }.
+
 Inductive case :=
+| CSend (sid : N) (buflen : nat) (steps : list sspec) (obs : list sobs)
 | CFrag (m : mspec) (max : Z) (exp : option (list (list N)))
 | CSeq (ms : list (mspec * Z)) (order : list (nat * nat)) (exp : option (list (list N)))
 | CWire (m : mspec) (buf : nat) (n : Z) (hsz : nat) (dg : option N) (p : pres)
@@ -77,8 +85,66 @@ Definition opt_LL_eqb (a b : option (list (list N))) : bool :=
   | _, _ => false
   end.
 
+Definition env_of (l : list ioresp) : nat -> ioresp := fun i => nth i l (last l RFail).
+
+Definition Z_list_eqb (a b : list Z) : bool :=
+  Nat.eqb (length a) (length b) && forallb (fun p => Z.eqb (fst p) (snd p)) (combine a b).
+Definition ZL_eqb (a b : list (list Z)) : bool :=
+  Nat.eqb (length a) (length b) && forallb (fun p => Z_list_eqb (fst p) (snd p)) (combine a b).
+
+Definition call_obs (buflen : nat) (e : msg * ioout) : list Z :=
+  let m := fst e in
+  map Z.of_N (sum m) ++
+  [(if Nat.ltb buflen (size m) then -1 else Z.of_nat (size m))%Z;
+   match snd e with OAccept => 0 | ODrop => 1 | OTooLarge _ => 2 | OFail => 3 end%Z;
+   match snd e with OTooLarge L => L | _ => 0%Z end].
+
+(* the far side of the harness: every accepted datagram goes over the wire (serialize, parse) into a Defragger *)
+Fixpoint far_feed (d : dstate) (l : list msg) : option (dstate * list (list N)) :=
+  match l with
+  | [] => Some (d, [])
+  | m :: t =>
+      match parse (serialize m) with
+      | Ok pm =>
+          match feed d pm with
+          | Ok (d1, o) =>
+              match far_feed d1 t with
+              | Some (d2, r) => Some (d2, match o with Some x => sum x :: r | None => r end)
+              | None => None
+              end
+          | _ => None
+          end
+      | _ => None
+      end
+  end.
+
+Fixpoint send_check (sid : N) (buflen : nat) (d : dstate) (steps : list sspec) (obs : list sobs) : bool :=
+  match steps, obs with
+  | [], [] => true
+  | s :: ts, o :: tobs =>
+      match send buflen (env_of (ss_resp s)) (ss_np s) sid
+                 (gen_data (ss_aa s) (ss_ab s) (ss_al s)) (gen_data (ss_da s) (ss_db s) (ss_dl s)) with
+      | Ok (evs, r) =>
+          ZL_eqb (map (call_obs buflen) evs) (so_calls o) &&
+          (match r with
+           | SNil => (so_ret o =? 0)%Z
+           | STooLarge L => (so_ret o =? 1)%Z && (so_retL o =? L)%Z
+           | SFail => (so_ret o =? 2)%Z
+           end) &&
+          (* a fragmented message carries an id the code can draw: uint16(rand.Intn(0xFFFF)) + 1 *)
+          (if Nat.leb 2 (length evs) then (1 <=? ss_np s) && (ss_np s <=? 65535) else true) &&
+          match far_feed d (accepted evs) with
+          | Some (d1, em) => LL_eqb em (so_emits o) && send_check sid buflen d1 ts tobs
+          | None => false
+          end
+      | _ => false
+      end
+  | _, _ => false
+  end.
+
 Definition check (c : case) : bool :=
   match c with
+  | CSend sid buflen steps obs => send_check sid buflen d_init steps obs
   | CFrag m max exp =>
       match frag (build m) max with
       | Ok fs => opt_LL_eqb exp (Some (map sum fs))
